@@ -216,6 +216,22 @@ def run(ctx):
                 ctx.violation("C17.R5", "C17.R5/trailing-count/" + k, "%s no longer treats a missing trailing count as absent" % k, g.loc())
     ctx.floor("C17.R5", "read_unplaced_unmapped_record_count implementations", n, 6)
 
+    ctx.rule("C17.R10", "A5b an index reads back whatever way its bytes arrive: no index reader takes the result of a single raw read() for "
+                        "a whole field (a short read is legal; shared with C12.R1 / C13.R4)")
+    from .. import a5
+    from .c13 import INDEX_READERS
+    raw = [s_ for s_ in a5.raw_io_sites(fb, a5.RAW_READ) if INDEX_READERS.search(s_["fn"])]
+    bad = [s_ for s_ in raw if s_["class"] != "delegation"]
+    for s_ in bad:
+        f_ = fb.fns[s_["fn"]]
+        ctx.violation("C17.R10", "C17.R10/raw-read/" + s_["fn"],
+                      "index reader %s takes a field from one raw read(): a valid index delivered in pieces (short reads) fails to read back or "
+                      "reads back differently" % s_["fn"], f_.loc(s_["block"]))
+    nrd = sum(1 for k_, f_ in fb.fns.items() if INDEX_READERS.search(k_) and not f_.is_closure)
+    if not bad:
+        ctx.ok("C17.R10", "raw read() sites in the index readers", "%d, all delegation (Read::read of a wrapper forwarding to its inner reader)" % len(raw))
+    ctx.floor("C17.R10", "index reader functions inspected", nrd, 60)
+
 
 def _uses_const(f, ckey):
     for blk in f.blocks:
